@@ -72,4 +72,51 @@ def checksHold (o : RObj) : List RCheck → Option Bool
 def isReady (o : RObj) (cs : List RCheck) : Option Bool :=
   if cs.isEmpty then some (statusOf o.conds "Ready" == some "True") else checksHold o cs
 
+/-! ### declared call skeletons of ready.go (`Xp.Gen.c05Skel*` are regenerated from the source;
+`skeleton_*` in Xp.Props.C05 state the equalities) -/
+
+/-- `IsReady` (the package function): no checks => the Ready condition (isReady: `cs.isEmpty`
+branch); else pave the object and run the checks in order, stopping at the first error / the first
+check that does not hold (checksHold) -/
+def skelIsReady : List String :=
+  ["return", "resource.IsConditionTrue", "o.GetCondition",   -- isReady: statusOf o.conds "Ready" == some "True"
+   "fieldpath.PaveObject", "return",                           -- not modelled: paving an unstructured object cannot fail
+   "rc.IsReady",                                               -- checksHold: evalCheck o c
+   "return",                                                   -- checksHold: none => none
+   "return",                                                   -- checksHold: some false => some false
+   "return"]                                                   -- checksHold: [] => some true
+
+/-- `ReadinessCheck.IsReady`: Validate first (evalCheck: the `none` answers for unset fields), then
+per type one lookup; a missing field is "not ready", any other lookup error (wrong type) an error -/
+def skelCheckIsReady : List String :=
+  ["Validate", "return",                                       -- evalCheck: invalid check => none
+   "return",                                                   -- None => some true
+   "p.GetValue", "return", "resource.Ignore", "return",        -- NonEmpty: field != .absent
+   "p.GetString", "return", "resource.Ignore", "return",       -- MatchString: .absent => false, .str s => s == ms, other => none
+   "p.GetInteger", "return", "resource.Ignore", "return",      -- MatchInteger
+   "o.GetCondition", "return",                                 -- MatchCondition: (getCond o.conds ct).status == cs
+   "p.GetBool", "return", "resource.Ignore", "return",         -- MatchFalse
+   "p.GetBool", "return", "resource.Ignore", "return",         -- MatchTrue
+   "return"]                                                   -- unreachable after Validate (unknown type)
+
+/-- `ReadinessCheck.Validate`: None needs nothing; MatchString / MatchInteger / MatchCondition need
+their operand (RCheck.ms = "" / mi = 0 / hasCond = false are "unset", see ReadinessCheckFromV1);
+an unknown type is an error; every type but None and MatchCondition needs a field path -/
+def skelCheckValidate : List String :=
+  ["return",                                                   -- None
+   "return", "errors.Errorf",                                  -- MatchString without match string
+   "return", "errors.Errorf",                                  -- MatchInteger without match integer
+   "return", "errors.Errorf",                                  -- MatchCondition without match condition
+   "return",                                                   -- MatchCondition is valid without a field path
+   "return", "errors.Errorf",                                  -- unknown type
+   "return", "errors.Errorf",                                  -- field path missing
+   "return"]
+
+/-- `ReadinessCheckFromV1`: the empty string and 0 mean "unset" (RCheck.path/ms = "", mi = 0);
+the third ptr.To is generic (`ptr.To[int64]`) and not a selector call -/
+def skelCheckFromV1 : List String := ["return", "ptr.To", "ptr.To", "return"]
+
+/-- `ReadinessChecksFromComposedTemplate`: one ReadinessCheckFromV1 per entry, order kept -/
+def skelChecksFromTemplate : List String := ["ReadinessCheckFromV1"]
+
 end Xp.C05
